@@ -41,6 +41,19 @@ def parsePair (sep : Char) (s : String) : Option (String × String) :=
   | [a, b] => some (a, b)
   | _ => none
 
+/-- one `getSortedRoots` call: hint roots, then the rendezvous order of the local roots -/
+def rootsOne (loc locals gws : String) : String :=
+  if loc.length < 32 then "bad-op" else
+  match (splitList locals).mapM (parsePair '='), (splitList gws).mapM (parsePair '=') with
+  | some ls, some gs =>
+    let gw := fun (u : List Char) => (gs.find? (fun p => p.1.toList == u)).map (·.2.toList)
+    let hints := hintRoots gw ((loc.splitOn "+").map String.toList)
+    let hash := (loc.take 32).toString
+    -- local roots are reported by uuid; the harness maps roots back to uuids
+    let hs := if hints.isEmpty then "-" else ",".intercalate (hints.map String.ofList)
+    hs ++ ";" ++ showGroups (groupsOf hash (ls.map (·.1)))
+  | _, _ => "bad-op"
+
 def step (line : String) : String :=
   match fields line with
   | [op, hash, us] =>
@@ -56,17 +69,14 @@ def step (line : String) : String :=
         showGroups (groupsOf hash writable)
       | none => "bad-op"
     else "bad-op"
-  | ["roots", loc, locals, gws] =>
-    if loc.length < 32 then "bad-op" else
-    match (splitList locals).mapM (parsePair '='), (splitList gws).mapM (parsePair '=') with
-    | some ls, some gs =>
-      let gw := fun (u : List Char) => (gs.find? (fun p => p.1.toList == u)).map (·.2.toList)
-      let hints := hintRoots gw ((loc.splitOn "+").map String.toList)
-      let hash := (loc.take 32).toString
-      -- local roots are reported by uuid; the harness maps roots back to uuids
-      let hs := if hints.isEmpty then "-" else ",".intercalate (hints.map String.ofList)
-      hs ++ ";" ++ showGroups (groupsOf hash (ls.map (·.1)))
-    | _, _ => "bad-op"
+  | ["bal", hash, us, _rep] =>
+    -- per-mount replication only changes how keep-balance's ranking is observed, not the ranking
+    if hash.length != 32 then "bad-op" else showGroups (groupsOf hash (splitList us))
+  | ["rootseq", locs, locals, gws] =>
+    -- several getSortedRoots calls on ONE client: the model is stateless (the order depends on
+    -- nothing but the service set and the locator), so every call is answered as if it were the first
+    " / ".intercalate ((locs.splitOn ";").map (fun loc => rootsOne loc locals gws))
+  | ["roots", loc, locals, gws] => rootsOne loc locals gws
   | _ => "bad-op"
 
 def main : IO Unit := lineLoop step
